@@ -566,29 +566,41 @@ func c02NoAlias(e *Env) {
 	if f == nil || len(f.Params) != 3 {
 		return
 	}
-	data := f.Params[2]
 	bad := ""
 	nCopy := 0
-	for _, ref := range core.Referrers(data) {
-		switch u := ref.(type) {
-		case *ssa.Call:
-			if b, ok := u.Call.Value.(*ssa.Builtin); ok {
-				switch b.Name() {
-				case "len":
-					continue
-				case "copy":
-					if len(u.Call.Args) == 2 && u.Call.Args[1] == ssa.Value(data) {
-						nCopy++
+	var follow func(data ssa.Value, d int)
+	follow = func(data ssa.Value, d int) {
+		for _, ref := range core.Referrers(data) {
+			switch u := ref.(type) {
+			case *ssa.Call:
+				if b, ok := u.Call.Value.(*ssa.Builtin); ok {
+					switch b.Name() {
+					case "len":
 						continue
+					case "copy":
+						if len(u.Call.Args) == 2 && u.Call.Args[1] == data {
+							nCopy++
+							continue
+						}
 					}
 				}
+				// a helper analysed as part of this function: follow the parameter the buffer is bound to
+				if h := core.AbsorbedCallee(u); h != nil && d < 3 {
+					for k, a := range u.Call.Args {
+						if a == data && k < len(h.Params) {
+							follow(h.Params[k], d+1)
+						}
+					}
+					continue
+				}
+				bad = "the caller's buffer is passed to " + core.CalleeName(u) + " at " + e.pos(u)
+			case *ssa.DebugRef:
+			default:
+				bad = "the caller's buffer is used by " + strings.TrimSpace(fmt.Sprint(ref)) + " at " + e.pos(ref)
 			}
-			bad = "the caller's buffer is passed to " + core.CalleeName(u) + " at " + e.pos(u)
-		case *ssa.DebugRef:
-		default:
-			bad = "the caller's buffer is used by " + strings.TrimSpace(fmt.Sprint(ref)) + " at " + e.pos(ref)
 		}
 	}
+	follow(f.Params[2], 0)
 	e.R.Check(bad == "" && nCopy == 1, rule, "message/pool.Message.UnmarshalWithDecoder:input-only-copied", e.fpos(f), "the input slice flows only into len() and the source of one copy()", bad)
 	// decode() hands r.bufferUnmarshal to the decoder
 	if g := e.fn(rule, "message/pool.Message.decode"); g != nil {
